@@ -3,7 +3,7 @@ import ast
 import z3
 from . import fl
 from .fl import SFloat
-from .vals import (SArr, SList, SObj, SFunc, SStr, Unsupported, fresh_int, fresh_float, fresh_name, I)
+from .vals import (SArr, SList, SObj, SFunc, SStr, Unsupported, fresh_int, fresh_float, fresh_name, I, sel)
 from .state import (alloc_array, array_read, array_write, havoc_cell, coerce_scalar, new_cell)
 from .expr import (is_int, is_boolv, is_bv, is_float, as_bool, zb, to_int, simp_bool, band, bor, bnot, merge)
 
@@ -44,6 +44,8 @@ class NpMixin:
             shape = (shape,)
         shape = tuple(to_int(s) for s in shape)
         dt = dtype_code(kw.get("dtype", args[1] if len(args) > 1 else None))
+        if dt == "f" and self.opt("finite_locals", False):
+            dt = "r"
         if not self.spec:
             for s in shape:
                 g = simp_bool(zi(s) >= 0)
@@ -85,7 +87,9 @@ class NpMixin:
         raise Unsupported("np.array of %r" % type(v))
 
     def _slice_bounds(self, sl, dim, st, n):
-        """python slice semantics with clamping, for step 1 slices: -> (lo, hi) with 0 <= lo <= hi' and hi <= dim"""
+        """step-1 slice -> (lo, hi) absolute positions.  Code mode: symbolic bounds get an in-range obligation
+        (0 <= bound <= dim) and are then used as they are; with option(clamp_slices=True) python's clamping/wrapping
+        is modelled instead.  Spec mode: bounds are mathematical (no wrap, no clamp)."""
         _, lo, hi, step = sl
         if step not in (None, 1):
             raise Unsupported("slice step (line %d)" % n.lineno)
@@ -94,12 +98,22 @@ class NpMixin:
         def norm(v, default):
             if v is None:
                 return default
-            v = zi(to_int(v))
-            v = z3.If(v < 0, v + d, v)
-            return z3.If(v < 0, z3.IntVal(0), z3.If(v > d, d, v))
-        lo2 = norm(lo, z3.IntVal(0))
-        hi2 = norm(hi, d)
-        return z3.simplify(lo2), z3.simplify(hi2)
+            v = to_int(v)
+            if isinstance(v, int):
+                if v < 0:
+                    return z3.simplify(z3.If(d + v < 0, z3.IntVal(0), d + v))
+                return z3.IntVal(v) if isinstance(dim, int) and v <= dim else z3.simplify(z3.If(d < v, d, z3.IntVal(v)))
+            if self.spec:
+                return v
+            if self.opt("clamp_slices", False):
+                w = z3.If(v < 0, v + d, v)
+                return z3.simplify(z3.If(w < 0, z3.IntVal(0), z3.If(w > d, d, w)))
+            g = simp_bool(z3.And(v >= 0, v <= d))
+            if g is not True:
+                self.emit(st, "bounds", "L%d" % n.lineno, g, n, "slice bound %s within [0,%s]" % (v, dim))
+                st.assume(g)
+            return v
+        return norm(lo, z3.IntVal(0)), norm(hi, d)
 
     def slice_view(self, arr, idx, st, n):
         """basic slicing -> ('sview', arr, [per-axis ('i', index) | ('s', lo, hi)])"""
@@ -169,15 +183,29 @@ class NpMixin:
         v = args[0]
         if isinstance(v, tuple) and v and v[0] in ("sview", "smap"):
             dims = self.sview_dims(v)
-            key = ("npsum", self.sview_key(v, st))
-            # assumed contract of np.sum over a slice: uninterpreted sum function S(lo, hi) per (array, fixed indices, map)
-            # with S(lo,hi) = 0 if hi <= lo else S(lo, hi-1) + elem(hi-1)   [1-D]; 2-D: sum over rows of row sums
+            # assumed contract of np.sum over a 1-D slice: uninterpreted S(fixed indices..., lo, hi) per (array, sliced
+            # axis, element map) with S(.., lo, hi) = 0 if hi <= lo else S(.., lo, hi-1) + elem(hi-1)
             if len(dims) == 1:
-                S = self.sum_uf(v, st)
+                S, fixed = self.sum_uf(v, st)
                 lo, hi = dims[0]
-                return self.sum_result(S, v, lo, hi, st)
-            raise Unsupported("np.sum over %d-D slice: use the contract-level handler" % len(dims))
+                hi2 = z3.If(hi < lo, lo, hi)
+                if isinstance(S, tuple) and S[0] == "real":
+                    return SFloat(fl.FIN, S[1](*(fixed + [lo, hi2])), True)
+                if isinstance(S, tuple):
+                    return SFloat(S[0](*(fixed + [lo, hi2])), S[1](*(fixed + [lo, hi2])))
+                return S(*(fixed + [lo, hi2]))
+            if len(dims) == 2:
+                return self.sum2d(v, dims, st, n)
+            raise Unsupported("np.sum over %d-D slice" % len(dims))
         raise Unsupported("np.sum of %r (line %d)" % (type(v), n.lineno))
+
+    def sum2d(self, v, dims, st, n):
+        raise Unsupported("np.sum over a 2-D slice (line %d)" % n.lineno)
+
+    def sview_base(self, v):
+        while v[0] == "smap":
+            v = v[1]
+        return v
 
     def sview_key(self, v, st):
         if v[0] == "smap":
@@ -185,54 +213,130 @@ class NpMixin:
         _, arr, axes = v
         h = st.heap[arr.cell]
         hid = tuple(x.get_id() for x in (h if isinstance(h, tuple) else (h,)))
-        return ("v", hid, tuple(("i", str(ax[1])) if ax[0] == "i" else ("s",) for ax in axes))
+        return ("v", hid, tuple(ax[0] for ax in axes), tuple(str(f) for f in arr.fixed))
 
     def elem_is_float(self, v):
         while v[0] == "smap":
             if v[2][0] in ("==", "!=", "<", "<=", ">", ">="):
                 return False
             v = v[1]
-        return v[1].dt == "f"
+        return v[1].dt in ("f", "r")
+
+    def elem_is_real(self, v):
+        return self.sview_base(v)[1].dt == "r"
 
     def sum_uf(self, v, st):
-        """S(lo, hi): sum of elements at absolute positions lo..hi-1 along the single sliced axis"""
+        """-> (S, fixed index terms).  S(fixed..., lo, hi): sum of the elements at positions lo..hi-1 of the sliced axis"""
+        base = self.sview_base(v)
+        fixed = [zi(to_int(ax[1])) for ax in base[2] if ax[0] == "i"]
         key = ("sum", self.sview_key(v, st))
         if key in self._uf_cache:
-            return self._uf_cache[key]
+            return self._uf_cache[key], fixed
         isf = self.elem_is_float(v)
         nm = fresh_name("npsum")
-        lo, hi = z3.Ints(fresh_name("lo") + " " + fresh_name("hi"))
-        # element at absolute position p: rebuild the view with lo = 0
-        v0 = self._rebase(v)
-        if isf:
-            Sk = z3.Function(nm + ".k", I, I, fl.FK)
-            Sv = z3.Function(nm + ".v", I, I, z3.RealSort())
+        fb = [z3.Int(fresh_name("fx")) for _ in fixed]
+        lo, hi = z3.Int(fresh_name("lo")), z3.Int(fresh_name("hi"))
+        # the element at absolute position hi-1 with symbolic fixed indices
+        v0 = self._rebase(v, fb)
+        nf = len(fb)
+        if isf and self.elem_is_real(v):
+            Sr = z3.Function(nm + ".r", *([I] * (nf + 2) + [z3.RealSort()]))
             e = fl.F(self.sview_elem(v0, [hi - 1], st))
-            prev = SFloat(Sk(lo, hi - 1), Sv(lo, hi - 1))
+            self.axioms.append(z3.ForAll(fb + [lo, hi], z3.And(
+                z3.Implies(hi <= lo, Sr(*(fb + [lo, hi])) == 0),
+                z3.Implies(hi > lo, Sr(*(fb + [lo, hi])) == Sr(*(fb + [lo, hi - 1])) + e.v)), patterns=[Sr(*(fb + [lo, hi]))]))
+            S = ("real", Sr)
+        elif isf:
+            Sk = z3.Function(nm + ".k", *([I] * (nf + 2) + [fl.FK]))
+            Sv = z3.Function(nm + ".v", *([I] * (nf + 2) + [z3.RealSort()]))
+            e = fl.F(self.sview_elem(v0, [hi - 1], st))
+            prev = SFloat(Sk(*(fb + [lo, hi - 1])), Sv(*(fb + [lo, hi - 1])))
             tot = fl.add(prev, e)
-            self.axioms.append(z3.ForAll([lo, hi], z3.And(
-                z3.Implies(hi <= lo, z3.And(Sk(lo, hi) == fl.FIN, Sv(lo, hi) == 0)),
-                z3.Implies(hi > lo, z3.And(Sk(lo, hi) == tot.k, Sv(lo, hi) == tot.v))), patterns=[Sk(lo, hi), Sv(lo, hi)]))
+            self.axioms.append(z3.ForAll(fb + [lo, hi], z3.And(
+                z3.Implies(hi <= lo, z3.And(Sk(*(fb + [lo, hi])) == fl.FIN, Sv(*(fb + [lo, hi])) == 0)),
+                z3.Implies(hi > lo, z3.And(Sk(*(fb + [lo, hi])) == tot.k, Sv(*(fb + [lo, hi])) == tot.v))),
+                patterns=[Sk(*(fb + [lo, hi])), Sv(*(fb + [lo, hi]))]))
             S = (Sk, Sv)
         else:
-            Si = z3.Function(nm, I, I, I)
-            e = self.sview_elem(v0, [hi - 1], st)
-            e = zi(to_int(e))
-            self.axioms.append(z3.ForAll([lo, hi], z3.And(
-                z3.Implies(hi <= lo, Si(lo, hi) == 0),
-                z3.Implies(hi > lo, Si(lo, hi) == Si(lo, hi - 1) + e)), patterns=[Si(lo, hi)]))
+            Si = z3.Function(nm, *([I] * (nf + 3)))
+            e = zi(to_int(self.sview_elem(v0, [hi - 1], st)))
+            self.axioms.append(z3.ForAll(fb + [lo, hi], z3.And(
+                z3.Implies(hi <= lo, Si(*(fb + [lo, hi])) == 0),
+                z3.Implies(hi > lo, Si(*(fb + [lo, hi])) == Si(*(fb + [lo, hi - 1])) + e)), patterns=[Si(*(fb + [lo, hi]))]))
             S = Si
         self._uf_cache[key] = S
-        return S
+        return S, fixed
 
-    def _rebase(self, v):
+    def _rebase(self, v, fb):
+        """same view with slice start 0 and the fixed indices replaced by the bound variables fb"""
         if v[0] == "smap":
-            return ("smap", self._rebase(v[1]), v[2])
+            return ("smap", self._rebase(v[1], fb), v[2])
         _, arr, axes = v
-        return ("sview", arr, [ax if ax[0] == "i" else ("s", z3.IntVal(0), ax[2]) for ax in axes])
+        it = iter(fb)
+        return ("sview", arr, [("i", next(it)) if ax[0] == "i" else ("s", z3.IntVal(0), ax[2]) for ax in axes])
 
-    def sum_result(self, S, v, lo, hi, st):
-        hi2 = z3.If(hi < lo, lo, hi)
-        if isinstance(S, tuple):
-            return SFloat(S[0](lo, hi2), S[1](lo, hi2))
-        return S(lo, hi2)
+    # ------------------------------------------------------------ slice assignment  a[i, :] = b[j, :]
+    def array_set_slice(self, arr, idx, v, st, node):
+        shape = arr.view_shape()
+        idx = list(idx) + [("slice", None, None, None)] * (len(shape) - len(idx))
+        axes = []
+        for i, s_ in zip(idx, shape):
+            if isinstance(i, tuple):
+                lo, hi = self._slice_bounds(i, s_, st, node)
+                axes.append(("s", lo, hi))
+            else:
+                axes.append(("i", self.norm_index(arr.name, i, s_, st, node)))
+        nd = len(arr.shape)
+        q = [z3.Int("w%d!" % k) for k in range(nd)]
+        inside = []
+        pos = []
+        for k, ax in enumerate(axes):
+            qq = q[len(arr.fixed) + k]
+            if ax[0] == "i":
+                inside.append(qq == zi(ax[1]))
+            else:
+                inside += [qq >= ax[1], qq < ax[2]]
+                pos.append(qq - ax[1])
+        for k, f in enumerate(arr.fixed):
+            inside.append(q[k] == zi(f))
+        inside = z3.And(*inside)
+        before = st.heap[arr.cell]
+        from .state import havoc_cell
+        havoc_cell(st, arr, arr.name or "sl")
+        after = st.heap[arr.cell]
+        # value written at a cell of the region
+        if isinstance(v, tuple) and v and v[0] in ("sview", "smap"):
+            if not self.spec:
+                dv = self.sview_dims(v)
+                dt = [(ax[1], ax[2]) for ax in axes if ax[0] == "s"]
+                if len(dv) != len(dt):
+                    raise Unsupported("slice assignment rank mismatch (line %d)" % node.lineno)
+                for (a0, a1), (b0, b1) in zip(dv, dt):
+                    self.emit(st, "shape", "L%d" % node.lineno, (a1 - a0) == (b1 - b0), node, "slice extents agree")
+            val = self.sview_elem(v, pos, st_with(st, arr.cell, before))
+        elif isinstance(v, SArr):
+            val = array_read(st_with(st, arr.cell, before), v, pos)
+        else:
+            val = v
+        if arr.dt == "r" and not self.spec:
+            self.real_store_check(val if isinstance(val, SFloat) else fl.F(0), st, node)
+        if arr.dt == "f":
+            fv = fl.F(val) if not isinstance(val, SFloat) else val
+            st.assume(z3.ForAll(q, sel(after[0], q) == z3.If(inside, fv.k, sel(before[0], q)), patterns=[sel(after[0], q)]))
+            st.assume(z3.ForAll(q, sel(after[1], q) == z3.If(inside, fv.v, sel(before[1], q)), patterns=[sel(after[1], q)]))
+        else:
+            st.assume(z3.ForAll(q, sel(after, q) == z3.If(inside, coerce_scalar(val, arr.dt), sel(before, q)), patterns=[sel(after, q)]))
+
+
+class _StView:
+    """read-only view of a state with one heap cell replaced (value before a slice assignment)"""
+    def __init__(self, st, cell, val):
+        self.heap = dict(st.heap)
+        self.heap[cell] = val
+        self.vars = st.vars
+        self.pc = st.pc
+        self.log = None
+
+
+def st_with(st, cell, val):
+    return _StView(st, cell, val)
